@@ -404,6 +404,14 @@ def run(ctx, config='rel-all'):
     # makes a collection write into its neighbours)
     from . import clients
     clients.check(ctx, config, 'R8')
+    # ---- R9 grow_zeroed zero-fills the tail of the block it returns (C12.R6), not memory next to it; R10 the growing primitives
+    # of the arena Vec write only the slots they reserved (C13 formula clauses for push / insert / extend_with / append / ..)
+    from .. import runner as _runner
+    from . import c12 as _c12
+    _c12.run(_runner.Sub(ctx, 'R9', 'C12', only={'R6'}), config)
+    if config != 'rel-default':
+        from . import c13 as _c13
+        _c13.run(_runner.Sub(ctx, 'R10', 'C13', only={'O2'}, match=_c13.growing_clause), config)
     # value methods: the value is written exactly at the reserved pointer, once
     for name in VALUE_METHODS:
         b = arena.bump_method(db, name)
